@@ -464,6 +464,18 @@ def edge_matrix(work):
         shutil.rmtree(cout, ignore_errors=True); cout.mkdir()
         yield ["verify", "--equivalence", "external", "--no-proof-search", "--decomposition", fl[0], "--direction", fl[1], "--save-problems", str(cout)] + \
               ([] if fl[2] == "true" else ["--no-simplify"]) + ([] if fl[3] == "true" else ["--no-eq-break"]) + files, "|".join(parts[1:5])
+    # proof search switched ON: tasks without any problem (nothing to prove, whatever the number of prover instances,
+    # cores or the time limit) and small tasks whose prover cannot be started (no `vampire` is installed here): a verdict or
+    # an error message, never a panic
+    (miss / "e1.lp").write_text(""); (miss / "e2.lp").write_text("% nothing\n"); (miss / "e.ug").write_text(""); (miss / "e.spec").write_text("")
+    for extra in ([], ["-n", "0"], ["-n", "2"], ["-n", "3"], ["-n", "8"], ["-m", "0"], ["-t", "0"], ["-n", "3", "-m", "0", "-t", "0"], ["--decomposition", "independent", "-n", "4"]):
+        yield ["verify", "--equivalence", "strong", "--no-timing"] + extra + [m("e1.lp"), m("e2.lp")], "two empty programs " + " ".join(extra)
+        yield ["verify", "--equivalence", "external", "--no-timing"] + extra + [m("e1.lp"), m("e2.lp"), m("e.ug")], "empty external task " + " ".join(extra)
+        yield ["verify", "--equivalence", "external", "--no-timing"] + extra + [m("e.spec"), m("e2.lp"), m("e.ug")], "empty specification " + " ".join(extra)
+        yield ["verify", "--equivalence", "strong", "--no-timing", "--direction", "forward"] + extra + [m("a.lp"), m("e1.lp")], "forward, empty right program " + " ".join(extra)
+    for extra in ([], ["-n", "3"], ["-n", "0"]):
+        yield ["verify", "--equivalence", "strong", "--no-timing", "-t", "1"] + extra + [m("a.lp"), m("b.lp")], "prover cannot be started " + " ".join(extra)
+        yield ["verify", "--equivalence", "external", "--no-timing", "-t", "1"] + extra + [m("a.lp"), m("b.lp"), m("g.ug")], "prover cannot be started " + " ".join(extra)
     # user guides with arities / numerals at the limits through the whole pipeline
     for k, u in enumerate(EDGE_TEXTS["ug"][4:]):
         fu = miss / f"limit{k}.ug"
@@ -832,7 +844,19 @@ def glue_correspondence(kind, n, seed):
             last = (dec, dirn, rep, simplify, brk, bypass)
             out = d / ("out2" if complement else "out")
             out.mkdir()
-            files = [str(d)] if (rng.random() < 0.5 and not complement) else [str(f) for f in sorted(d.iterdir()) if f.is_file()]
+            if complement or rng.random() < 0.5:
+                # the files one by one, under names whose path order is the REVERSE of the order given (roles follow the order
+                # of the arguments, not the names)
+                rev = d / ("rev2" if complement else "rev")
+                rev.mkdir()
+                given = []
+                for src, dst in (("a_left.lp", "z_first.lp"), ("a_left.spec", "z_first.spec"), ("b_right.lp", "m_second.lp"), ("c.ug", "c_guide.ug"), ("d.po", "a_outline.po")):
+                    if (d / src).exists():
+                        (rev / dst).write_text((d / src).read_text())
+                        given.append(str(rev / dst))
+                files = given
+            else:
+                files = [str(d)]
             # explicit defaults are left out now and then (the default must be what the model is asked for)
             cmd = ["verify", "--equivalence", kind, "--no-proof-search", "--save-problems", str(out)]
             if not (dec == "sequential" and rng.random() < 0.3):
@@ -855,7 +879,8 @@ def glue_correspondence(kind, n, seed):
             pr = subprocess.run([str(ANTHEM)] + cmd, stdout=subprocess.PIPE, stderr=subprocess.PIPE, timeout=120, env=dict(os.environ, RUST_BACKTRACE="0"))
             got = {f.stem: f.read_text(errors="replace") for f in sorted(out.glob("*.p"))}
             shown = [c if not c.startswith(str(work)) else Path(c).name for c in cmd]
-            case = {"origin": origin, "command": shown, "files": {f.name: f.read_text(errors="replace") for f in sorted(d.iterdir()) if f.is_file()}}
+            case = {"origin": origin, "command": shown, "files": {Path(c).name: Path(c).read_text(errors="replace") for c in cmd if c.startswith(str(work)) and Path(c).is_file()} or
+                    {f.name: f.read_text(errors="replace") for f in sorted(d.iterdir()) if f.is_file()}}
             try:
                 v = sx.parse(ans)
             except Exception:
